@@ -236,11 +236,11 @@ def c11_instance(pn: bool, pp: bool, pd: bool, pa: bool, n0: int, n1: int, p0: i
 
 def c11_defaults(has_settings: bool, pt: bool, pi: bool, pstem: bool, omit: int, t0: int, t1: int, i0: int, i1: int, f0: int, f1: int) -> bool:
     """
-    pre: 33 <= t0 <= 126 and t0 != 36 and 33 <= t1 <= 126 and t1 != 36
-    pre: 33 <= i0 <= 126 and i0 != 36 and 33 <= i1 <= 126 and i1 != 36
-    pre: 33 <= f0 <= 126 and f0 != 36 and 33 <= f1 <= 126 and f1 != 36
-    pre: 0 <= omit <= 5
-    post: _ == True
+    vpre: 33 <= t0 <= 126 and t0 != 36 and 33 <= t1 <= 126 and t1 != 36
+    vpre: 33 <= i0 <= 126 and i0 != 36 and 33 <= i1 <= 126 and i1 != 36
+    vpre: 33 <= f0 <= 126 and f0 != 36 and 33 <= f1 <= 126 and f1 != 36
+    vpre: 0 <= omit <= 5
+    vpost: _ == True
     """
     T, I, F = S(t0, t1), S(i0, i1), S(f0, f1)
     OM = [None, "yes", "true()", "TRUE", "no", "false()"]
